@@ -265,24 +265,58 @@ func extractReader(un *ssa.Function) ([]rEntry, bool) {
 					}
 				}
 			}
-			// advance: the i-phi edge from this block, or from the end of its single-successor chain
+			// advance: follow the single-successor chain from this block to the loop's post
+			// block, resolving intermediate phis along the edges actually taken
 			if iPhi != nil {
-				end := b
-				for k := 0; k < 4 && len(end.Succs) == 1 && end.Succs[0] != iPhi.Block(); k++ {
-					end = end.Succs[0]
-				}
-				for i, pb := range iPhi.Block().Preds {
-					if pb == end {
-						switch ev := iPhi.Edges[i].(type) {
-						case *ssa.BinOp:
-							if ev.X == idxVar && ev.Op == token.ADD {
-								e.Advance, _ = constInt(ev.Y)
-							}
-						default:
-							if ev == idxVar {
-								e.Advance = 0
+				known := map[ssa.Value]int64{idxVar: 0}
+				var resolve func(v ssa.Value, d int) (int64, bool)
+				resolve = func(v ssa.Value, d int) (int64, bool) {
+					if k, ok := known[v]; ok {
+						return k, true
+					}
+					if d > 6 {
+						return 0, false
+					}
+					if bo, ok := v.(*ssa.BinOp); ok && bo.Op == token.ADD {
+						if k, isK := constInt(bo.Y); isK {
+							if x, ok := resolve(bo.X, d+1); ok {
+								return x + k, true
 							}
 						}
+					}
+					return 0, false
+				}
+				prev, cur := b, b
+				for k := 0; k < 6; k++ {
+					if len(cur.Succs) != 1 {
+						break
+					}
+					next := cur.Succs[0]
+					prev, cur = cur, next
+					// phis of cur, edge from prev
+					pi := -1
+					for i, pb := range cur.Preds {
+						if pb == prev {
+							pi = i
+						}
+					}
+					for _, x := range cur.Instrs {
+						ph, ok := x.(*ssa.Phi)
+						if !ok {
+							break
+						}
+						if pi >= 0 {
+							if val, ok := resolve(ph.Edges[pi], 0); ok {
+								if ph == iPhi {
+									e.Advance = val
+								} else {
+									known[ph] = val
+								}
+							}
+						}
+					}
+					if cur == iPhi.Block() {
+						break
 					}
 				}
 			}
@@ -782,6 +816,7 @@ func checkC19(c *Ctx) {
 	}
 	checkHexTables(c, "C19.hex-tables")
 	checkC19Round2(c)
+	checkC19PrefixPlain(c)
 	checkKeyCodeTables(c, "C19.key-code-tables")
 }
 
